@@ -244,6 +244,19 @@ impl History {
     /// Shrinking candidates: drop an op, shrink sizes.
     pub fn simpler(&self) -> Vec<History> {
         let mut out = Vec::new();
+        // a history of hundreds or thousands of calls (c09.many-calls): only a handful of chunk removals - one clone per
+        // candidate; removing every single op in turn would cost n clones of n ops (gigabytes for 65 536 calls)
+        if self.ops.len() > 300 {
+            let n = self.ops.len();
+            for (a, b) in [(0, n / 2), (n / 2, n), (n / 4, n / 2), (n / 2, 3 * n / 4), (1, n - 1), (2, n - 2), (n - 2, n - 1), (0, 1)] {
+                if a < b && b <= n {
+                    let mut h = self.clone();
+                    h.ops.drain(a..b);
+                    out.push(h);
+                }
+            }
+            return out;
+        }
         for i in 0..self.ops.len() {
             let mut h = self.clone();
             h.ops.remove(i);
